@@ -9,7 +9,8 @@ PROP = dict(
                     "fan-out <= 6, duplicate and empty names, empty / quoted / long values across 255 and 65535 bytes) x 12 format "
                     "strings of the three section styles x name flag sets, each rendered three ways (example-file layout, optional "
                     "whitespace removed, random blanks / blank lines / comment lines / trailing comments / CR LF) and read back; nesting, "
-                    "order, names, values and parent/prev links are compared; 30k / 400k further trees are written to a file and read 2-4 "
+                    "order, names, values and parent/prev links are compared (harness getc for all three texts, one text per tree also through "
+                    "mpt_getchar_stdio on a memory stream and through mpt_getchar_file on a memfd; bytes >= 0x80 incl. 0xfe/0xff in most trees); 30k / 400k further trees are written to a file and read 2-4 "
                     "times through one mpt::config_parser (open, read, reset or new open, read again; fresh or used result node), every "
                     "pass compared the same way; before 2/5 of the reads set_format() calls with an unknown style character (must be refused "
                     "and change nothing), in 1/3 of the cases an accepted format change on the used parser followed by a tree in the "
@@ -26,7 +27,10 @@ PROP = dict(
                            "tree:with-value-250..254": 12000, "tree:with-value-255..260": 12000, "tree:with-value-65530..65540": 2400,
                            "tree:with-name-250..260": 8000, "tree:comment-char-inside-plain-value": 8000,
                            "decoration:comments": 240000, "decoration:blank-lines": 240000, "decoration:trailing-comments": 40000,
-                           "decoration:crlf": 40000}),
+                           "decoration:crlf": 40000,
+                           "monitor:trees-equal:stdio-reader": 70000, "monitor:trees-equal:descriptor-reader": 60000,
+                           "monitor:trees-equal:descriptor-reader-with-high-bytes": 50000,
+                           "monitor:trees-equal:descriptor-reader-with-0xfe-0xff": 35000}),
               dict(name="c09_cxx", memcheck=500, src=["c09_cxx.cpp", "c09_tree.c"], libs=["mpt++", "mptio", "mptplot", "mptcore"], batch=512, lsan=True,
                    floors={"parser::read": 75000, "parser::open": 33750, "config_parser::reset": 30000,
                            "monitor:trees-equal:first-read": 30000, "monitor:trees-equal:after-reset": 30000,
